@@ -75,51 +75,99 @@ def r13_1(ctx):
         f = prog.fn(api)
         if f is None:
             continue
-        acqs = [c for c in f.calls() if c.get('callee') == acq]
+        # the acquisition may sit in a static helper that hands the resource to its
+        # caller: when it returns success the resource is held, when it fails it is not
+        wrappers = {}
+        for h in cu.family(prog, f)[1:]:
+            hs = [c for c in h.calls() if c.get('callee') == acq]
+            if hs:
+                hbad, holds = _pairing(h, hs[0], rel, wrapper=True)
+                wrappers[h.name] = (h, hs[0], hbad, holds)
+        acqs = [c for c in f.calls() if c.get('callee') == acq or
+                (c.get('callee') in wrappers and wrappers[c['callee']][3])]
         if not acqs:
             ctx.ob('R13.1', '%s:%s/%s-paired' % (api, acq, rel), False, '%s:%s' % (f.file, f.line),
                    '%s no longer calls %s' % (api, acq))
             continue
         a = acqs[0]
-        nb = f.block_of(a)
-        bad = []
-        ct = paths.CondTracker(f, extra=['result', '__error'])
-        from .C16 import call_use
-        u = call_use(f, a)
-        carrier = u[1] if isinstance(u, tuple) else None
-        init = set()
-        if carrier:
-            init.add(('pend', carrier))
-        else:
-            init.add('own')
+        bad, _ = _pairing(f, a, rel, wrapper=False)
+        where = f.loc(bad[0]) if bad else f.loc(a)
+        what = '%s returns after a successful %s without %s' % (api, acq, rel)
+        if not bad and a.get('callee') in wrappers and wrappers[a['callee']][2]:
+            h, _, hbad, _ = wrappers[a['callee']]
+            bad = hbad
+            where = h.loc(hbad[0])
+            what = '%s can fail after a successful %s without %s' % (h.name, acq, rel)
+        ctx.ob('R13.1', '%s:%s/%s-paired' % (api, acq, rel), not bad, where,
+               'every path after a successful %s passes %s' % (acq, rel) if not bad else what)
 
-        def step(n, facts):
-            if n['k'] == 'decl' and n.get('c'):
-                src = cu.strip_casts(f, f.kid(n, 0))
-                if src is not None and src['k'] == 'ref' and ('pend', src['name']) in facts:
-                    facts = frozenset(facts) | {('pend', n['name'])}
-            if n['k'] == 'call' and n.get('callee') == rel:
-                return frozenset(x for x in facts if x != 'own' and not isinstance(x, tuple))
-            if n['k'] == 'ret':
-                if 'own' in facts:
+
+def _pairing(f, a, rel, wrapper):
+    """paths of f after the acquiring call a.  Returns (bad return nodes, holds):
+    api mode: a return that still owns the resource is bad;
+    wrapper mode: a return that still owns it is the point of the function when it
+    returns success (holds=True) and bad when it returns (or may return) failure."""
+    nb = f.block_of(a)
+    bad = []
+    holds = [False]
+    ct = paths.CondTracker(f, extra=['result', '__error'])
+    from .C16 import call_use
+    u = call_use(f, a)
+    carrier = u[1] if isinstance(u, tuple) else None
+    init = set()
+    if carrier:
+        init.add(('pend', carrier))
+    else:
+        init.add('own')
+
+    def zero_or_not(n, facts):
+        e = cu.strip_casts(f, f.kid(n, 0)) if n.get('c') else None
+        if e is None:
+            return None
+        v = cu.const_of(e)
+        if v is not None:
+            return v == 0
+        if e['k'] == 'ref':
+            for x in facts:
+                if isinstance(x, tuple) and len(x) == 3 and x[1] == e['name'] and x[2] == 0:
+                    return x[0] == 'eq'
+        return None
+
+    def step(n, facts):
+        if n['k'] == 'decl' and n.get('c'):
+            src = cu.strip_casts(f, f.kid(n, 0))
+            if src is not None and src['k'] == 'ref' and ('pend', src['name']) in facts:
+                facts = frozenset(facts) | {('pend', n['name'])}
+        if n['k'] == 'call' and n.get('callee') == rel:
+            return frozenset(x for x in facts if x != 'own' and not (isinstance(x, tuple) and x[0] == 'pend'))
+        if n['k'] == 'ret':
+            if 'own' in facts:
+                if not wrapper:
                     bad.append(n)
-                return None
-            return facts
+                else:
+                    z = zero_or_not(n, facts)
+                    if z:
+                        holds[0] = True
+                    else:
+                        bad.append(n)
+            return None
+        return facts
 
-        def edge(b, term, cond, idx, succ, facts):
-            pol = paths.branch_polarity(f, term, idx)
-            if pol is None or cond is None:
-                return facts
-            imp = ct.implied(cond, pol)
-            if imp is not None and ('pend', imp[1]) in facts and imp[2] == 0:
-                rest = frozenset(x for x in facts if not (isinstance(x, tuple) and x[0] == 'pend'))
-                return rest | ({'own'} if imp[0] == 'eq' else set())
+    def edge(b, term, cond, idx, succ, facts):
+        pol = paths.branch_polarity(f, term, idx)
+        if pol is None or cond is None:
             return facts
-        paths.explore(f, init, step, edge, start_block=nb[0], start_index=nb[1] + 1, max_states=64)
-        ctx.ob('R13.1', '%s:%s/%s-paired' % (api, acq, rel), not bad,
-               f.loc(bad[0]) if bad else f.loc(a),
-               'every path after a successful %s passes %s' % (acq, rel) if not bad else
-               '%s returns after a successful %s without %s' % (api, acq, rel))
+        imp = ct.implied(cond, pol)
+        if imp is not None and ('pend', imp[1]) in facts and imp[2] == 0:
+            rest = frozenset(x for x in facts if not (isinstance(x, tuple) and x[0] == 'pend'))
+            return rest | ({'own'} if imp[0] == 'eq' else set()) | {imp}
+        if imp is not None and imp[2] == 0 and wrapper:
+            if not paths.CondTracker.consistent(facts, imp):
+                return None
+            return frozenset(facts) | {imp}
+        return facts
+    paths.explore(f, init, step, edge, start_block=nb[0], start_index=nb[1] + 1, max_states=128)
+    return bad, holds[0]
 
 
 def r13_2(ctx):
@@ -204,18 +252,34 @@ def r13_2(ctx):
                    'scanner->%s is (re)assigned here on every call, continuations included, although '
                    'the block loop accumulates it (%s): what was computed before the suspension is '
                    'lost when the scan resumes' % (bad[0][1], acc[bad[0][1]]))
-    # cleanup under result != ERROR_BLOCK_NOT_READY
-    cleans = [c for c in f.calls() if c.get('callee') == '_yr_scanner_clean_matches'
+    # cleanup under result != ERROR_BLOCK_NOT_READY.  A "clearing site" is a call of
+    # _yr_scanner_clean_matches, or of a static helper of the funnel that reaches it
+    CLEAN = '_yr_scanner_clean_matches'
+    via = cu.helpers_reaching(prog, f, CLEAN)
+    cleans = [c for c in f.calls() if (c.get('callee') == CLEAN or c.get('callee') in via)
               and (fb is None or not f.is_ancestor(fb, c))]
+    # the variable the funnel returns
+    returned = set()
+    for n in f.all_nodes():
+        if n['k'] == 'ret' and n.get('c'):
+            e = cu.strip_casts(f, f.kid(n, 0))
+            if e is not None and e['k'] == 'ref' and not any(
+                    m.startswith(('FAIL_ON_', 'GOTO_EXIT_ON_')) for m in f.macros(n)):
+                returned.add(e['name'])
     ok = bool(cleans)
     for c in cleans:
         guarded = False
         for a in f.ancestors(c):
-            if a['k'] == 'if':
-                cnd = f.kid(a, 0)
-                if cnd is not None and cnd['k'] == 'bin' and cnd['op'] == '!=' and \
-                        f.show(f.kid(cnd, 0)) == 'result' and cu.const_of(f.kid(cnd, 1)) == nr:
-                    guarded = True
+            if a['k'] == 'if' and any(x is c for x in f.walk(f.kid(a, 1))):
+                cnd = cu.strip_casts(f, f.kid(a, 0))
+                while cnd is not None and cnd['k'] == 'paren':
+                    cnd = cu.strip_casts(f, f.kid(cnd, 0))
+                if cnd is not None and cnd['k'] == 'bin' and cnd['op'] == '!=':
+                    for x, y in ((f.kid(cnd, 0), f.kid(cnd, 1)), (f.kid(cnd, 1), f.kid(cnd, 0))):
+                        xs = cu.strip_casts(f, x)
+                        if xs is not None and xs['k'] == 'ref' and xs['name'] in returned and \
+                                cu.const_of(cu.strip_casts(f, y)) == nr:
+                            guarded = True
         ok = ok and guarded
     ctx.ob('R13.2', 'end-of-scan-cleanup:skipped-when-suspended', ok,
            f.loc(cleans[0]) if cleans else f.file,
@@ -223,20 +287,49 @@ def r13_2(ctx):
            'otherwise' if ok else
            'the end-of-scan cleanup is no longer conditional on result != ERROR_BLOCK_NOT_READY: '
            'a resumed scan loses (or a finished scan keeps) its matches')
-    # nobody else clears matches
+    # nobody else clears matches: the funnel, or static helpers that only the funnel uses
     callers = set()
     for g in prog.fns():
         for c in g.calls():
-            if c.get('callee') == '_yr_scanner_clean_matches':
+            if c.get('callee') == CLEAN:
+                if g.name != FUNNEL and cu.only_called_from(g, set([FUNNEL])):
+                    continue
                 callers.add(g.name)
     ctx.ob('R13.2', 'clean_matches:who-may-call', callers <= set([FUNNEL]), 'libyara/scanner.c',
            'matches are cleared only by %s' % FUNNEL if callers <= set([FUNNEL]) else
            'matches are also cleared by %s' % ', '.join(sorted(callers - set([FUNNEL]))))
 
 
+def _entry_points_of(f, depth=0):
+    """the functions on whose behalf the static helper f runs: its transitive callers
+    in the translation unit, up to functions that are not static, have their address
+    taken (registered in a table) or have no caller"""
+    def address_taken(h):
+        for g in h.tu.fn_list:
+            for n in g.all_nodes():
+                if n['k'] == 'ref' and n.get('name') == h.name:
+                    par = g.parent(n)
+                    if not (par is not None and par['k'] == 'call' and g.kid(par, 0) is n) and \
+                            not (par is not None and par['k'] == 'call' and par.get('callee') == h.name):
+                        return True
+        return False
+    if not getattr(f, 'static', False) or depth > 3 or address_taken(f):
+        return [f]
+    callers = [g for g in f.tu.fn_list if g is not f and any(c.get('callee') == f.name for c in g.calls())]
+    if not callers:
+        return [f]
+    out = []
+    for g in callers:
+        for r in _entry_points_of(g, depth + 1):
+            if r not in out:
+                out.append(r)
+    return out
+
+
 def r13_3(ctx):
     prog = ctx.prog
     n = 0
+    per_entry = {}
     for f in prog.fns():
         if not f.file.startswith('libyara/') and not ctx.fixture:
             continue
@@ -253,11 +346,21 @@ def r13_3(ctx):
         n += 1
         reads_err = any(x['k'] == 'member' and x['fld'] == 'last_error' and
                         x.get('rec') == 'YR_MEMORY_BLOCK_ITERATOR' for x in f.all_nodes())
-        ctx.ob('R13.3', '%s:consults-last_error' % f.name, reads_err, f.loc(walks[0]),
-               'walks the block iterator and reads iterator->last_error' if reads_err else
-               '%s walks the block iterator and treats a NULL block as end of data without '
+        # a walk in a static helper is reported for the functions that use the helper: the
+        # finding is "evaluating <entry point> can take a not-ready block for the end of the
+        # data", wherever the loop itself is written
+        for r in _entry_points_of(f):
+            per_entry.setdefault(r.name, []).append((f, walks[0], reads_err))
+    for name in sorted(per_entry):
+        items = per_entry[name]
+        badw = [x for x in items if not x[2]]
+        f, w, _ = (badw or items)[0]
+        via = '' if f.name == name else ' (through %s)' % f.name
+        ctx.ob('R13.3', '%s:consults-last_error' % name, not badw, f.loc(w),
+               'walks the block iterator and reads iterator->last_error' if not badw else
+               '%s walks the block iterator%s and treats a NULL block as end of data without '
                'reading iterator->last_error: a not-ready block during rule evaluation is '
-               'silently taken for the end of the data' % f.name)
+               'silently taken for the end of the data' % (name, via))
     ctx.count('block_iterator_walkers', n)
 
 
